@@ -1,10 +1,11 @@
 (** Whole-run model: per-run extraction containing the constants of THIS run (Gen_*: regenerated from the working tree),
     i.e. the terms the end-to-end theorems of props/Properties_C04.v are instantiated with. *)
 From Coq Require Import Extraction ExtrOcamlBasic.
-From Snoopy Require Import Lib.CStr Config.Model Filter.Model Expand.Model Expand.Exec Output.Model Output.Exec System.Compose System.Exec.
-From Gen Require Import Gen_Config Gen_Filter Gen_Expand Gen_Cmdline Gen_Output Gen_Errors Gen_Sys.
+From Snoopy Require Import Lib.CStr Config.Model Filter.Model Expand.Model Expand.Exec Output.Model Output.Exec System.Compose System.Exec System.Full DsTruth.Model DsTruth.Exec.
+From Gen Require Import Gen_Config Gen_Filter Gen_Expand Gen_Cmdline Gen_Output Gen_Errors Gen_Sys Gen_Ds.
 Definition SC : sys_consts :=
   {| sc_cfg := Gen_Config.consts; sc_flt := Gen_Filter.consts; sc_exp := Gen_Expand.consts; sc_out := Gen_Output.consts;
      sc_err := Gen_Errors.err_append_text; sc_filtering := Gen_Sys.filtering_compiled |}.
 Definition run_sys := sys_run SC Gen_Sys.dsc Gen_Cmdline.consts.
-Extraction "model_system.ml" run_sys Exec.sink_tag Exec.sink_name Byte.to_N Byte.of_N.
+Definition run_sys_full := sys_run_full SC Gen_Ds.gen Gen_Cmdline.consts.
+Extraction "model_system.ml" run_sys run_sys_full Exec.sink_tag Exec.sink_name Byte.to_N Byte.of_N.
